@@ -51,6 +51,10 @@ ASSUMPTIONS = [
 N_VARIANTS = 4
 
 OBLIGATIONS = {
+    "sort_radix": "Track.sortRadix was applied (same requirement as sort)",
+    "pop_obs": "popObs(i) returned the designated observation and left the others",
+    "slice_operator": "track[i:j] compared with the designated observations",
+    "span_given_as_a_track": "extractSpanTime(track) (span between the first and last timestamp of another track)",
     "result_table_is_its_own": "a result of each sequence operator got one more feature and the source still listed and read the same",
     "insert_into_size_1": "chronological insertion into a track of 1 observation",
     "insert_into_size_2": "chronological insertion into a track of 2 observations",
@@ -82,7 +86,7 @@ OBLIGATIONS = {
     "duplicate_timestamps_state": "a reached state holds >= 2 equal timestamps",
 }
 
-UNIT = [1.0, 3.0, 1.0, 0.5]          # seconds per time unit; variant 1 crosses the year end, 2 the leap day, 3 uses ms
+UNIT = [0.25, 3.0, 1.0, 0.5]         # seconds per time unit; variants 0 and 3 are sub-second (timestamps that differ only in ms), 1 crosses the year end, 2 the leap day
 FEATS = ["f", "g"]
 PATTERNS = [[True], [False], [True, False], [False, True, True], [1, 0, 0], [0, 0, 0, 0, 0, 0, 0, 1]]
 # History depth per root size.  A history is a sequence of at most `depth` events the last of which may be a pure
@@ -185,6 +189,12 @@ def make_root(root):
 # ---------------------------------------------------------------------------
 def _fields(ts):
     return (ts.year, ts.month, ts.day, ts.hour, ts.min, ts.sec, ts.ms)
+
+
+def snap_one(o):
+    p = o.position
+    return (float(p.getX()), float(p.getY()), float(p.getZ()), tuple(int(v) for v in _fields(o.timestamp)),
+            tuple(float(v) for v in o.features))
 
 
 def snap(t):
@@ -310,8 +320,14 @@ def events_of(root):
         if is_sorted(S):
             ev += [("ins", u) for u in (u_range(variant, S) if n else [0])]
         ev.append(("sort",))
+        if n <= 4 and (n <= 2 or not is_sorted(S)):
+            ev.append(("sortradix",))          # 60 000 buckets per call: fired in the small states only
         if n >= 1:
             ev += [("first",), ("last",)]
+        if not insertion_only:
+            for i in range(n):
+                ev.append(("pop", i))
+                ev.append(("rmone", i))
         if not insertion_only:
             for c in _subsets(n):
                 ev.append(("rm",) + _listing(variant, c))
@@ -330,6 +346,12 @@ def apply_event_of(root):
             return t.insertObs(mk_obs(variant, tag, rid, ev[1], len(t.getListAnalyticalFeatures())))
         if k == "sort":
             return t.sort()
+        if k == "sortradix":
+            return t.sortRadix()
+        if k == "pop":
+            return t.popObs(ev[1])
+        if k == "rmone":
+            return t.removeObs(ev[1])
         if k == "first":
             return t.removeFirstObs()
         if k == "last":
@@ -359,8 +381,8 @@ def _ins_class(variant, S, u):
 def check_event(variant, case, ev, before, after, res, ctx):
     """One mutating transition against the list model.  Returns True when the new state is as expected."""
     k = ev[0]
-    name = {"ins": "insertObs", "sort": "sort", "first": "removeFirstObs", "last": "removeLastObs",
-            "rm": "removeObsList"}[k]
+    name = {"ins": "insertObs", "sort": "sort", "sortradix": "sortRadix", "first": "removeFirstObs", "last": "removeLastObs",
+            "rm": "removeObsList", "pop": "popObs", "rmone": "removeObs"}[k]
     sb = snap(before)
     nb = names_of(before)
     n = len(sb)
@@ -377,8 +399,10 @@ def check_event(variant, case, ev, before, after, res, ctx):
             ctx.oblige("insert_among_duplicates")
         if cls in ("before-all", "after-all"):
             nontrivial = True
-    elif k == "sort":
+    elif k in ("sort", "sortradix"):
         srt = is_sorted(sb)
+        if k == "sortradix":
+            ctx.oblige("sort_radix")
         cls = "sorted-input" if srt else ("unsorted-with-duplicates" if dups else "unsorted-distinct")
         if srt:
             ctx.oblige("sort_already_sorted")
@@ -417,7 +441,7 @@ def check_event(variant, case, ev, before, after, res, ctx):
         ctx.violation(key + "feature-table-changed", case, {"before": nb, "after": na})
         return False
     detail = {"before": _json_snap(sb), "after": _json_snap(sa)}
-    if k == "sort":
+    if k in ("sort", "sortradix"):
         if sorted(sa) != sorted(sb):
             ctx.violation(key + "not-the-same-observations", case, detail)
             return False
@@ -442,6 +466,15 @@ def check_event(variant, case, ev, before, after, res, ctx):
             exp = sb[1:]
         elif k == "last":
             exp = sb[:-1]
+        elif k in ("pop", "rmone"):
+            exp = [r for i, r in enumerate(sb) if i != ev[1]]
+            if k == "pop":
+                ctx.oblige("pop_obs")
+                st, popped = guard(lambda: snap_one(res[1]))
+                if st != "ok" or popped != sb[ev[1]]:
+                    ctx.violation(key + "returned-observation-is-not-the-designated-one", case,
+                                  dict(detail, returned=repr(popped)[:200]))
+                    return False
         else:
             drop = set(ev[1:])
             exp = [r for i, r in enumerate(sb) if i not in drop]
@@ -496,6 +529,12 @@ def pure_ops(variant, S):
     for i in range(0, n + 1):
         for j in range(i - 1, n):
             ops.append(["extract", i, j])
+    for i in range(0, n + 1):
+        for j in range(i, n + 1):
+            ops.append(["slice", i, j])
+    for i in range(n):
+        for j in range(n):
+            ops.append(["spantrack", i, j])
     U = u_range(variant, S)
     for a in U:
         for b in U:
@@ -543,6 +582,24 @@ def check_op(root, track, S, names, op, case, ctx):
         if not is_sorted(S):
             ctx.oblige("span_on_unsorted")
         name = "extractSpanTime"
+    elif k == "slice":
+        i, j = op[1], op[2]
+        fn = lambda: track[i:j]
+        exp = S[i:j]
+        cls = "empty-range" if j <= i else "non-empty-range"
+        ctx.oblige("slice_operator")
+        name = "getitem-slice"
+    elif k == "spantrack":
+        # extractSpanTime(other track): the span between the first and the last timestamp of that track
+        i, j = op[1], op[2]
+        other = Track([track.getObs(i).copy(), track.getObs(j).copy()])
+        fn = lambda: track.extractSpanTime(other)
+        a, b = s_unit(variant, S[i]), s_unit(variant, S[j])
+        lo, hi = min(a, b), max(a, b)
+        exp = [r for r in S if lo <= s_unit(variant, r) <= hi]
+        cls = "reversed-bounds" if a > b else "ordered-bounds"
+        ctx.oblige("span_given_as_a_track")
+        name = "extractSpanTime-track"
     elif k == "add":
         partner = make_partner(op[1], track, root)
         sp = snap(partner)
